@@ -68,6 +68,7 @@ class Harness:
     def assume(self, c, text=None):
         self.assumptions.append((text or str(c)[:200], c))
         self.eng.solver.add(c)
+        self.eng.global_assumptions.append(c)
 
     def struct(self, ty, **fields):
         names = self.mir.struct_fields.get(ty)
@@ -150,6 +151,26 @@ class Harness:
                     rec = {"name": name, "time_s": round(time.time() - t1, 4), "status": "holds", "without_branch_conditions": True}
                     self.obligations.append(rec)
                     return rec
+        # third stage: the full query with nonlinear reasoning switched off (products / quotients of symbolic terms are opaque
+        # monomials of the normalised polynomials): `unsat` is still a proof, anything else falls through to the full query
+        if not z3.is_false(z3.simplify(claim)):
+            s2 = z3.SimpleSolver()
+            s2.set("arith.nl", False)
+            s2.set("timeout", 10000)
+            for _, a in self.assumptions:
+                s2.add(a)
+            for c in st.pc:
+                s2.add(c)
+            for c in extra:
+                s2.add(c)
+            s2.add(z3.Not(claim))
+            t2 = time.time()
+            r2 = s2.check()
+            self.solver_time += time.time() - t2
+            if r2 == z3.unsat:
+                rec = {"name": name, "time_s": round(time.time() - t2, 4), "status": "holds", "without_nonlinear_reasoning": True}
+                self.obligations.append(rec)
+                return rec
         s = z3.Solver()
         s.set("timeout", self.timeout_ms)
         for _, a in self.assumptions:
@@ -286,11 +307,11 @@ class Harness:
         self.solver_time += time.time() - t
         return best
 
-    def reachable(self, out_or_st, cond=True, name="reach"):
+    def reachable(self, out_or_st, cond=True, name="reach", tmo_ms=None):
         """vacuity witness: the path (and cond) is satisfiable"""
         st = out_or_st.st if isinstance(out_or_st, Outcome) else out_or_st
         s = z3.Solver()
-        s.set("timeout", self.timeout_ms)
+        s.set("timeout", min(self.timeout_ms, tmo_ms) if tmo_ms else self.timeout_ms)
         for _, a in self.assumptions:
             s.add(a)
         for c in st.pc:
